@@ -179,6 +179,26 @@ pub fn gen(tier: Tier, rng: &mut Rng) -> Vec<Sx> {
         let cs: Vec<char> = s.chars().collect();
         for k in 0..=cs.len() { let pre: String = cs[..k].iter().collect(); v.push(mk(5, &pre)); let suf: String = cs[k..].iter().collect(); v.push(mk(5, &suf)); }
     }
+    // 4e. long arithmetic chains for the evaluator: 18..40 terms mixing + - with * / %, every identifier missing from the (empty) facts,
+    //     parenthesised groups in between - a failing operand must be reported at once, whatever the length (the run is under the
+    //     120 s watchdog; evaluation of these takes microseconds)
+    let nchains = if tier == Tier::Thorough { 60 } else { 8 };
+    for i in 0..nchains {
+        let terms = rng.range(18, 40);
+        let mut e = String::new();
+        for t in 0..terms {
+            if t > 0 { e.push_str(*rng.pick(&[" + ", " - ", " + ", " * ", " / ", " % ", "+", "*"])); }
+            // entry 0 is the identifier alphabet (the model predicts the failing leaf exactly): no numerals there
+            let ident_only = i % 2 == 0;
+            let atom = match rng.below(6) { 0 => "a".to_string(), 1 => "x.b".to_string(), 2 if !ident_only => format!("{}", rng.below(100)), 3 if !ident_only => "2".to_string(),
+                4 => format!("({} * {})", rng.pick(&["a", "b", "x"]), rng.pick(&["x", "a.b", "b"])), _ => "b".to_string() };
+            e.push_str(&atom);
+        }
+        v.push(mk(if i % 2 == 0 { 0 } else { 1 }, &e));
+        // the plain sum of products: `m * a + x * a + x * a + ...`
+        let sp: Vec<String> = (0..terms).map(|t| format!("{} * {}", if t == 0 { "m" } else { "x" }, if i % 2 == 0 { "a" } else { "2" })).collect();
+        v.push(mk(if i % 2 == 0 { 0 } else { 1 }, &sp.join(if rng.chance(1, 2) { " + " } else { " - " })));
+    }
     // 5. deep prefix chains and nesting up to 4 KiB
     for e in 1..nent { for (p, q) in [("!", ""), ("(", ""), ("(", ")"), ("[", "]"), ("{", "}"), ("NOT ", ""), ("-", ""), ("!(", ")"), ("exists(", ")")] {
         for n in [33usize, 500, 4000 / (p.len() + q.len()).max(1)] { let s = format!("{}X.a == 1{}", p.repeat(n), q.repeat(n)); v.push(mk(e, &s[..s.len().min(4096)])); } } }
